@@ -60,12 +60,91 @@ structure DState where
   vt : Nat → Option Nat := fun _ => none
   vtn : Nat := 0
   dom : Dom Float := ⟨0, 0, 0⟩
+  sys : Sys Float := Sys.init 0 1
+  prism : Prism Float := default
 
 def grid (n : Nat) (f : Nat → Nat → String) : String :=
   " ".intercalate ((List.range n).flatMap fun i => (List.range n).map fun j => f i j)
 
+def ckindOf (kind : String) : CKind :=
+  if kind = "py" then .py else if kind = "hnc" then .hnc else if kind = "msa" then .msa
+  else if kind = "ms" then .ms else if kind = "msA" then .msA else .msB
+def pkindOf (k : String) : PotKind :=
+  if k = "hs" then .hs else if k = "exp" then .exp else if k = "lj" then .lj else if k = "ljcut" then .ljcut
+  else if k = "ljshift" then .ljshift else if k = "hclj" then .hclj else .wca
+def okindOf (k : String) : OmKind :=
+  if k = "gauss" then .gauss else if k = "fjc" then .fjc else if k = "ring" then .ring else if k = "single" then .single
+  else if k = "nointra" then .nointra else .arr
+def maTok (A : MA Float) : String := s!"{spaceTok A.space} {A.length} {A.rank} {fl A.data.toList}"
+def outTok : Out Float → String
+  | .ma A => "ma " ++ maTok A
+  | .table n t => "table " ++ " ".intercalate ((List.range n).flatMap fun i => (List.range n).map fun j =>
+      match t i j with | none => "N" | some v => s!"[{v.size} {fl v.toList}]")
+def stateTok (p : Prism Float) : String :=
+  s!"om {maTok p.omega} h {maTok p.totalCorr} c {maTok p.directCorr}"
+def calcRes (s : DState) (r : Except Err (Prism Float × String)) : DState × String :=
+  match r with
+  | .ok (p, o) => ({ s with prism := p }, s!"ok {o} | {stateTok p}")
+  | .error e => (s, errTok e)
+
 def step (s : DState) (toks : List String) : DState × String :=
   match toks with
+  -- ---------------- System / PRISM / calculate (C01-C06, C16)
+  | ["sys.new", n, kT] => ({ s with sys := Sys.init n.toNat! (hexToFloat kT) }, "ok")
+  | ["sys.kT", kT] => ({ s with sys := { s.sys with kT := hexToFloat kT } }, "ok")
+  | ["sys.dom", "none"] => ({ s with sys := { s.sys with dom := none } }, "ok")
+  | ["sys.dom", L, dr] => ({ s with sys := { s.sys with dom := some (Dom.ofDr L.toNat! (hexToFloat dr)) } }, "ok")
+  | "sys.dens" :: v :: ts => ({ s with sys := { s.sys with dens := s.sys.dens.set (nats ts) (hexToFloat v) } }, "ok")
+  | "sys.diam" :: v :: ts => ({ s with sys := { s.sys with diam := s.sys.diam.set (nats ts) (hexToFloat v) } }, "ok")
+  | ["sys.pot", i, j, "none"] => ({ s with sys := { s.sys with pot := setSym s.sys.pot i.toNat! j.toNat! none } }, "ok")
+  | "sys.pot" :: i :: j :: kind :: sg :: ps =>
+      let P : PotSpec Float := ⟨pkindOf kind, hexs ps, if sg = "N" then none else some (hexToFloat sg)⟩
+      ({ s with sys := { s.sys with pot := setSym s.sys.pot i.toNat! j.toNat! (some P) } }, "ok")
+  | ["sys.clo", i, j, "none"] => ({ s with sys := { s.sys with clo := setSym s.sys.clo i.toNat! j.toNat! none } }, "ok")
+  | ["sys.clo", i, j, kind, hc] =>
+      ({ s with sys := { s.sys with clo := setSym s.sys.clo i.toNat! j.toNat! (some (ckindOf kind, hc = "1")) } }, "ok")
+  | ["sys.om", i, j, "none"] => ({ s with sys := { s.sys with om := setSym s.sys.om i.toNat! j.toNat! none } }, "ok")
+  | "sys.om" :: i :: j :: kind :: N :: ps =>
+      ({ s with sys := { s.sys with om := setSym s.sys.om i.toNat! j.toNat! (some ⟨okindOf kind, N.toNat!, hexs ps⟩) } }, "ok")
+  | ["sys.check"] => (s, toString s.sys.check)
+  | ["prism.create"] =>
+      match s.sys.createPRISM with
+      | .ok p => ({ s with prism := p }, "ok")
+      | .error e => (s, errTok e)
+  | ["prism.wiring"] =>
+      let p := s.prism
+      let pairs := (List.range p.n).flatMap fun i => ((List.range p.n).filter (i ≤ ·)).map fun j => (i, j)
+      (s, " ".intercalate (pairs.map fun (i, j) =>
+        s!"P{i}{j} {floatToHex (p.cloSigma i j)} {floatToHex (p.potSigma i j)} {fl (p.u i j).toList}") ++ s!" om {maTok p.omega}")
+  | "prism.cost" :: xs =>
+      match s.prism.cost gaussInv (hexs xs) with
+      | .ok p => ({ s with prism := p }, s!"ok y {fl p.y.toList} c {maTok p.directCorr} h {maTok p.totalCorr} gi {fl p.gammaIn.data.toList} go {fl p.gammaOut.data.toList}")
+      | .error e => (s, errTok e)
+  | "prism.aftersolve" :: xs =>
+      match s.prism.afterSolve gaussInv (hexs xs) with
+      | .ok p => ({ s with prism := p }, s!"ok {stateTok p}")
+      | .error e => (s, errTok e)
+  | "prism.set" :: which :: sp :: xs =>
+      let p := s.prism
+      let A : MA Float := ⟨p.dom.length, p.n, spaceOf sp, hexs xs⟩
+      let p' := if which = "om" then { p with omega := A } else if which = "h" then { p with totalCorr := A } else { p with directCorr := A }
+      ({ s with prism := p' }, "ok")
+  | ["prism.flip", which] =>
+      let p := s.prism
+      let A := if which = "om" then p.omega else if which = "h" then p.totalCorr else p.directCorr
+      match (if A.space = .real then p.dom.maToFourier A else p.dom.maToReal A) with
+      | .ok B =>
+          let p' := if which = "om" then { p with omega := B } else if which = "h" then { p with totalCorr := B } else { p with directCorr := B }
+          ({ s with prism := p' }, s!"ok {stateTok p'}")
+      | .error e => (s, errTok e)
+  | ["prism.state"] => (s, stateTok s.prism)
+  | ["calc.pc"] => calcRes s (s.prism.pairCorrelation.map fun (p, o) => (p, "ma " ++ maTok o))
+  | ["calc.sf", nz] => calcRes s ((s.prism.structureFactor (nz = "1")).map fun (p, o) => (p, "ma " ++ maTok o))
+  | ["calc.pmf"] => calcRes s (s.prism.pmf.map fun (p, o) => (p, "ma " ++ maTok o))
+  | ["calc.b2", ex] => calcRes s ((s.prism.secondVirial (ex = "1")).map fun (p, o) => (p, outTok o))
+  | ["calc.chi", ex] => calcRes s ((s.prism.chi (ex = "1")).map fun (p, o) => (p, outTok o))
+  | ["calc.spin"] => calcRes s (s.prism.spinodal.map fun (p, o) => (p, outTok o))
+  | ["calc.solv", hnc] => calcRes s ((s.prism.solvation (hnc = "1")).map fun (p, o) => (p, "ma " ++ maTok o))
   -- ---------------- C15 Density / Diameter
   | ["dens.new", n] => ({ s with dens := Dens.init n.toNat! }, "ok")
   | "dens.set" :: v :: ts => ({ s with dens := s.dens.set (nats ts) (hexToFloat v) }, "ok")
